@@ -5,6 +5,7 @@ Subject of the Gen theorems: the functions REGENERATED from /repo's source in Ge
 -/
 import MinizProof.Gen.All
 import MinizProof.Lemmas.Finite
+import MinizProof.Props.C02
 set_option maxRecDepth 1000000
 open Fin'
 
@@ -41,6 +42,13 @@ theorem flags_wellformed : ∀ level zlib, level < 256 → zlib < 2 →
   have := allBelow_spec (allBelow_spec h level hl) zlib hz
   simp only [Bool.and_eq_true, beq_iff_eq, decide_eq_true_eq] at this
   exact ⟨this.1.1, this.1.2, this.2⟩
+
+/-- The grow-and-retry loop of `compress_to_vec` re-enters `compress` after a call that stopped in
+    the middle of the input; what makes that lossless is that every engine exit stores all cached
+    registers back (program-text theorem proved in Props/C02, re-checked here). -/
+theorem engines_resume_exactly :
+    Gen.Facts.engineExits.all (fun e => e.2.2.2.1.all (fun f => e.2.2.2.2.contains f)) = true :=
+  C02.engine_exits_store_all_cached_registers.1
 
 -- non-vacuity: level 200 really is a u8 level above 10 and maps to level 10's flags
 example : flagsFor 200 1 = flagsFor 10 1 := level_clamp 200 1 (by decide) (by decide) (by decide)
